@@ -56,6 +56,87 @@ def _same_but_imports(a, b):
         return False
 
 
+def dict_params(src, method):
+    """[(GraphQL variable name, parameter feeding it)] of a client method, in declaration order (the variables dict)"""
+    import ast
+
+    for cls in [n for n in ast.parse(src).body if isinstance(n, ast.ClassDef)]:
+        for fn in cls.body:
+            if isinstance(fn, (ast.FunctionDef, ast.AsyncFunctionDef)) and fn.name == method:
+                params = {a.arg for a in fn.args.args}
+                for st in fn.body:
+                    if isinstance(st, ast.AnnAssign) and isinstance(st.value, ast.Dict):
+                        out = []
+                        for k, v in zip(st.value.keys, st.value.values):
+                            ps = [n.id for n in ast.walk(v) if isinstance(n, ast.Name) and n.id in params]
+                            out.append((k.value, ps[0] if ps else None))
+                        return out
+    return None
+
+
+def reserved_names(ctx, cases):
+    """K1 for the reserved-name loop of arguments.py and ExtractOperations.process_name: the model's assign_names
+    (a) without constants must give the parameter names of the UNPLUGGED methods, (b) with the constants recorded
+    up to the operation must give the parameter names of the methods generated with ExtractOperations.  Processed
+    names and the reserved set are taken from the real functions (utils.process_name, ArgumentsGenerator)."""
+    run = ctx.run
+    from ariadne_codegen.client_generators.arguments import ArgumentsGenerator
+    from ariadne_codegen.client_generators.scalars import ScalarData
+    from ariadne_codegen.utils import process_name, str_to_pascal_case
+
+    from . import c15 as k3
+
+    cmds, meta, out = [], [], {}
+    for case in cases:
+        snake = case.sc.config.get("convert_to_snake_case", True)
+        scalars = {k: ScalarData(type_=v["type"], graphql_name=k, serialize=v.get("serialize"), parse=v.get("parse"))
+                   for k, v in (case.sc.config.get("scalars") or {}).items()}
+        try:
+            reserved = sorted(ArgumentsGenerator(schema=case.gen[""].schema, convert_to_snake_case=snake,
+                                                 custom_scalars=scalars)._get_reserved_argument_names())
+        except Exception as exc:  # noqa
+            run.broken("K1 reserved names", f"ArgumentsGenerator._get_reserved_argument_names unusable: {type(exc).__name__}: {exc}")
+            return out
+        e_cfg = next((c for c in case.configs if "E" in c and case.gen[c].ok), None)
+        consts = []
+        for op in case.ops:
+            name = op.name.value
+            consts.append(k3.const_name(name))
+            processed = [process_name(vd.variable.name.value, convert_to_snake_case=snake, node=vd)
+                         for vd in op.variable_definitions or ()]
+            res = reserved + [str_to_pascal_case(name)]
+            for kind, cs in (("unplugged", []), ("extract", list(consts))):
+                cmds.append([Sym("assign"), cs, res, processed])
+                meta.append((case, op, kind, e_cfg))
+    results = model.batch("C15", cmds) if cmds else []
+    base_names = {}
+    for (case, op, kind, e_cfg), names in zip(meta, results):
+        meth = scen.method_name(op.name.value)
+        cfg = "" if kind == "unplugged" else e_cfg
+        if cfg is None:
+            continue
+        real = dict_params(case.files[cfg]["client.py"], meth)
+        run.count()
+        if real is None or any(p is None for _k, p in real):
+            run.dist("k1_reserved_names", "not-comparable")
+            continue
+        if [p for _k, p in real] != list(names):
+            run.violation(f"K1 reserved names: model {list(names)} vs generated parameters {[p for _k, p in real]} "
+                          f"({kind}, operation {op.name.value}, seed {case.sc.seed})",
+                          {"seed": case.sc.seed, "operation": op.name.value, "kind": kind, "model": list(names),
+                           "generated": real, "schema": case.sc.sdl, "queries": case.sc.queries,
+                           "config": case.sc.config}, found_input=False)
+            continue
+        run.dist("k1_reserved_names", kind + ("-renamed" if kind == "extract" and list(names) != base_names.get((id(case), meth)) else ""))
+        if kind == "unplugged":
+            base_names[(id(case), meth)] = list(names)
+        else:
+            ren = {o: n for o, n in zip(base_names.get((id(case), meth), []), names) if o != n}
+            if ren:
+                out.setdefault(id(case), {"renames": {}})["renames"][meth] = ren
+    return out
+
+
 def first_difference(a, b, path="$"):
     if type(a) != type(b):
         return f"{path}: {str(a)[:160]} != {str(b)[:160]}"
@@ -87,6 +168,7 @@ def run(ctx, cases):
             cmds.append([Sym("generate"), [plugin_sx(c) for c in cfg], enc])
             meta.append((case, cfg, "model"))
     results = model.batch("C15", cmds, chunk=8) if cmds else []
+    names_by_case = reserved_names(ctx, cases)
     verdict = {}
     for (case, cfg, variant), res in zip(meta, results):
         key = (id(case), cfg)
@@ -110,17 +192,14 @@ def run(ctx, cases):
             mc["operations"].pop("modules", None)
         v["variants"][variant] = None if mc == v["real"] else first_difference(mc, v["real"])
         if v["variants"][variant] is not None and "E" in cfg and isinstance(mc, dict) and mc.get("operations"):
-            # ExtractOperations' process_name hook (fixes/C15-extract-constant-shadowed.diff) renames an argument
-            # that is named like a constant; this renaming is modelled here, in the canonical form
-            constants = {k for k, _ in mc["operations"]["consts"]}
+            # ExtractOperations' process_name hook renames an argument named like a constant.  The NAMES come from the
+            # Coq model (assign_names with the constants recorded so far, see reserved_names below); only the
+            # textual substitution into the opaque statements is done here.
+            renames = (names_by_case.get(id(case)) or {}).get("renames", {})
             methods = []
             for m in mc["client"]["methods"]:
-                names = {p[0] for p in m[2]}
-                for p in [p[0] for p in m[2] if p[0] in constants]:
-                    new = p
-                    while new in constants or (new != p and new in names):
-                        new += "_"
-                    m = canon.rename_param_in_method(m, p, new)
+                for old, new_ in (renames.get(m[0]) or {}).items():
+                    m = canon.rename_param_in_method(m, old, new_)
                 methods.append(m)
             mc2 = dict(mc, client=dict(mc["client"], methods=methods))
             # the import of a constant that was only shadowed before is used again
